@@ -154,6 +154,8 @@ def one(ctx, case, tmpdir, decisions=None):
             ctx.maxi("workers_py_lines_seen", res.info["lines_seen"])
     if case["saver"] is not None:
         ctx.count("runs_with_stream_saver")
+    if case.get("hop"):
+        ctx.count("runs_over_an_overlapping_reader")
     ok = check_run(ctx, case, data, tmpdir, res, expected)
     if ok and expected and ctx.want_sample():
         ctx.sample({"case": {k: P.case_json(case)[k] for k in ("v", "observers", "strategy", "timeout_budget", "saver")},
@@ -274,7 +276,7 @@ def run_shard(ctx):
     try:
         rng = ctx.rng("runs")
         for i in range(conf["runs"]):
-            case = P.random_pipeline_case(rng, max_windows=30 if i % 5 else 60, many_detections=(i % 8 == 3))
+            case = P.random_pipeline_case(rng, max_windows=30 if i % 5 else 60, many_detections=(i % 8 == 3), allow_hop=True)
             if i % 8 == 3:
                 ctx.count("runs_with_long_bursts_of_detections")
             if i % 3 == 1:
@@ -332,7 +334,7 @@ def inconclusive(merged, tier):
     c = merged["counters"]
     need = ["scheduled_runs", "messages_checked", "timeouts_fired", "context_switches", "line_mode_runs", "instruction_mode_runs", "all_module_line_mode_runs", "line_preemptions",
             "stress_runs", "stress_messages_checked", "systematic_schedules", "systematic_pipelines_fully_enumerated", "observers_checked_rec", "observers_checked_print",
-            "observers_checked_regionsaver", "observers_checked_joiner", "runs_with_stream_saver", "runs_with_long_bursts_of_detections", "runs_with_a_logger", "observers_that_died_mid_stream", "runs_with_a_failing_close", "runs_started_tokenizer_first", "runs_with_blocking_observer_waits", "runs_with_a_command_observer", "timeout_marathon_runs", "runs_with_more_than_10000_detections"] + ["strategy_" + s for s in P.S.NAMES]
+            "observers_checked_regionsaver", "observers_checked_joiner", "runs_with_stream_saver", "runs_over_an_overlapping_reader", "runs_with_long_bursts_of_detections", "runs_with_a_logger", "observers_that_died_mid_stream", "runs_with_a_failing_close", "runs_started_tokenizer_first", "runs_with_blocking_observer_waits", "runs_with_a_command_observer", "timeout_marathon_runs", "runs_with_more_than_10000_detections"] + ["strategy_" + s for s in P.S.NAMES]
     out = [f"monitor never observed {k}" for k in need if c.get(k, 0) == 0]
     if c.get("inconclusive_runs", 0) > max(3, c.get("scheduled_runs", 0) // 50):
         out.append(f"{c['inconclusive_runs']} runs hit a step/wall cap")
